@@ -266,6 +266,11 @@ func (in *Interp) get(fr *frame, v ssa.Value) aval {
 			if st, ok := x.Type().Underlying().(*types.Struct); ok {
 				return in.zeroStruct(st, x.Type())
 			}
+			if _, ok := x.Type().Underlying().(*types.Array); ok {
+				if z := in.zeroOf(x.Type()); z.k == kArray {
+					return z // the zero value of an array type (an empty composite literal)
+				}
+			}
 			return aNil(x.Type())
 		}
 		return aConst(x.Value, x.Type())
